@@ -342,7 +342,7 @@ func c05CheckRule(c *core.Ctx, text string, walks int, useMatch bool) {
 }
 
 func init() {
-	sizes := map[core.Tier]int{core.Quick: 6000, core.Thorough: 120000}
+	sizes := map[core.Tier]int{core.Quick: 6000, core.Thorough: 800000}
 	walks := map[core.Tier]int{core.Quick: 60, core.Thorough: 400}
 	core.Register(&core.Prop{
 		ID:    "C05",
